@@ -1087,11 +1087,12 @@ func runScenarioIn(sc replayScenario, sub string) (output string, failed bool, c
 	cmd.Env = goEnv()
 	b, err := cmd.CombinedOutput()
 	out := string(b)
+	// reproduced = the test ran and failed; a build error is a broken replay, not a reproduction
+	// (decided on the whole output: a failing stand-in may print more than is kept)
+	failed = err != nil && strings.Contains(out, "--- FAIL")
 	if len(out) > 6000 {
 		out = out[:6000] + "…"
 	}
-	// reproduced = the test ran and failed; a build error is a broken replay, not a reproduction
-	failed = err != nil && strings.Contains(out, "--- FAIL")
 	if err != nil && !failed {
 		out = "REPLAY-BROKEN (did not build or run):\n" + out
 	}
